@@ -82,6 +82,7 @@ MEMBERS = {
     "super0": "    def who(self):\n        return 'K>' + super().who()\n",
     "super2": "    def who(self):\n        return 'K2>' + super(K, self).who()\n",
     # zero-argument super() in every statement position of a method that is lowered to its own lambda/comprehension
+    "super0-privatemethod": "    def __who2(self, __arg='P'):\n        return __arg + '>' + super().who()\n    def who(self):\n        return self.__who2()\n",
     "super0-whiletest": "    def who(self):\n        n = 0\n        while super().who() and n < 1:\n            n += 1\n        return 'Kw%d>' % n + super().who()\n",
     "super0-whilewalrus": "    def who(self):\n        n = 0\n        while (w := super().who()) and n < 2:\n            n += 1\n            if n == 2:\n                break\n        return 'Kww%d>' % n + w\n",
     "super0-foriter": "    def who(self):\n        r = 'Kf>'\n        for ch in super().who():\n            if ch == 's':\n                break\n            r += ch\n        else:\n            r += '!'\n        return r\n",
